@@ -78,6 +78,9 @@ type Knobs struct {
 	PEarlyRecreate             float64 // workload controllers: a terminating pod is replaced by a pending one at once
 	// DRA (see dra.go): probability that the case contains resource.k8s.io objects; 0 = no extra draws, no objects
 	PDRA float64
+	// PGpuSpread > 0 replaces the generic choice of the GPU placement strategy: spread (plugin gpuspread: whole devices
+	// are preferred to shared ones) with this probability, binpack otherwise
+	PGpuSpread float64
 }
 
 var allActions = "allocate, consolidation, reclaim, preempt, stalegangeviction"
@@ -126,6 +129,19 @@ func Profile(name string) Knobs {
 		k.Fill, k.PTerminating = 0.6, 0.3
 		k.CyclesMin, k.CyclesMax = 3, 7
 		k.PTopology, k.PAntiAffinity, k.PAffinity = 0, 0.02, 0
+	case "sharing": // C01 / C02: multi-device fractions next to shared, idle and releasing devices on few small nodes
+		k.NodesMin, k.NodesMax = 1, 2
+		k.GPUChoices = []int{2, 3, 3, 4}
+		k.PGpuMemLabel = 0.75
+		k.PMigNode, k.PExtRes = 0, 0
+		k.KindWeights = map[string]int{"whole": 4, "fraction": 5, "gpumem": 2, "multifrac": 6}
+		k.Fill, k.PTerminating, k.PBinding = 0.9, 0.4, 0.1
+		k.PGang, k.PSubGroups = 0.1, 0
+		k.WorkloadsMin, k.WorkloadsMax = 8, 18
+		k.CyclesMin, k.CyclesMax = 2, 4
+		k.PTopology, k.PAntiAffinity, k.PAffinity, k.PNodeSelector, k.PNodeAffinity, k.PTaint = 0, 0, 0, 0.05, 0.03, 0.05
+		k.PNotReady, k.PUnschedulable, k.PSmallPods = 0, 0, 0
+		k.PGpuSpread = 0.6
 	case "gangs": // C03
 		k.PGang, k.GangMax, k.PSubGroups, k.PElastic = 0.8, 6, 0.4, 0.4
 		k.PStaleGang = 0.12
@@ -368,6 +384,12 @@ func (g *G) config() {
 	c.Actions = pick(g, g.k.ActionsChoices)
 	c.PluginArgs = map[string]map[string]string{}
 	place := map[string]string{"cpu": pick(g, []string{"binpack", "spread"}), "gpu": pick(g, []string{"binpack", "binpack", "spread"})}
+	if g.k.PGpuSpread > 0 {
+		place["gpu"] = "binpack"
+		if g.p(g.k.PGpuSpread) {
+			place["gpu"] = "spread"
+		}
+	}
 	c.PluginArgs["nodeplacement"] = place
 	if g.p(0.4) {
 		c.PluginArgs["proportion"] = map[string]string{"relcaimerSaturationMultiplier": pick(g, []string{"1", "1.2", "2"})}
